@@ -97,7 +97,7 @@ def compare_path(scn, p, ev, inp, ref):
     return None
 
 
-def derive_inputs(scn, paths, rng, n_random=4):
+def derive_inputs(scn, paths, rng, n_random=4, n_dict=6):
     """models of every path + boundary/random perturbations"""
     inputs = []
     for p in paths:
@@ -114,7 +114,7 @@ def derive_inputs(scn, paths, rng, n_random=4):
                 bits = 8 * seg[2]
                 inp["args"][seg[1]] = rng.choice(boundary + [rng.getrandbits(bits), rng.getrandbits(8)]) % (1 << bits)
         for a in list(scn["accounts"]) + [inp["caller"]]:
-            inp["balances"][a] = rng.choice([0, 1, 10 ** 18, (1 << 128), rng.getrandbits(100)])
+            inp["balances"][a] = rng.choice([0, 1, 10 ** 18, (1 << 125), rng.getrandbits(100)])
         inputs.append(inp)
     # perturb models: flip one argument to a boundary value
     for b in base[:6]:
@@ -122,7 +122,45 @@ def derive_inputs(scn, paths, rng, n_random=4):
             c = dict(b, args=dict(b["args"]))
             c["args"][name] = rng.choice(boundary) % (1 << (8 * next(s[2] for s in scn["calldata"] if s[0] == "s" and s[1] == name)))
             inputs.append(c)
+    # dictionary inputs: the constants the programs compare against and the addresses that
+    # exist (clean and with dirty upper bits) -- values no random draw would ever hit, and
+    # which a pruned alternative (dropped alias, dropped insufficient-funds branch) has no
+    # reported path to supply a model for
+    words = dictionary(scn)
+    for k in range(n_dict if words else 0):
+        src = rng.choice(base) if base and rng.random() < 0.5 else None
+        inp = {"caller": src["caller"] if src else rng.choice(ADDR_POOL), "origin": src["origin"] if src else rng.choice(ADDR_POOL),
+               "value": src["value"] if src else rng.choice([0, 0, 1, 1000]), "args": dict(src["args"]) if src else {}, "balances": dict(src["balances"]) if src else {}}
+        for seg in scn["calldata"]:
+            if seg[0] == "s" and (seg[1] not in inp["args"] or rng.random() < 0.6):
+                inp["args"][seg[1]] = rng.choice(words) % (1 << (8 * seg[2]))
+        if not src or rng.random() < 0.5:
+            for a in list(scn["accounts"]) + [inp["caller"]]:
+                inp["balances"][a] = rng.choice([0, 0, 1, 999, 1000, 1001, 10 ** 18])
+        inputs.append(inp)
     return inputs
+
+
+def dictionary(scn):
+    """PUSH immediates of every program of the scenario (and their neighbours), existing
+    addresses other than the executing one, clean and with dirty upper bits"""
+    words = set()
+    for a, acc in scn["accounts"].items():
+        code = bytes(acc["code"])
+        pc = 0
+        while pc < len(code):
+            op = code[pc]
+            if 0x60 <= op <= 0x7F:
+                n = op - 0x5F
+                v = int.from_bytes(code[pc + 1:pc + 1 + n].ljust(n, b"\0"), "big")
+                if n <= 20 or v >> 224 != 0:
+                    words.update({v, (v + 1) % (1 << 256), (v - 1) % (1 << 256)})
+                pc += n
+            pc += 1
+        if a != scn["this"]:
+            words.update({a, a | (1 << 160), a | (0xDEAD << 200)})
+    words.update({0xC0FFEE, 0xC0FFEE | (1 << 255)})
+    return sorted(words)[:400]
 
 
 _sym = None
@@ -221,8 +259,8 @@ def check_scenario(scn, rng, fuel=20000, n_random=4, with_model=False):
         if ref["status"] in ("fuel", "unsupported", "model-error"):
             stats["ref_skipped"] += 1
             continue
-        if any(b > (1 << 128) for b in inp.get("balances", {}).values()):
-            continue  # documented modelling assumption: balances <= MAX_ETH
+        if sum(inp.get("balances", {}).values()) > (1 << 128):
+            continue  # documented modelling assumption: balances <= MAX_ETH (at any time: transfers only move the total around)
         kept_inputs.append(inp)
         kept_refs.append(ref)
         holders = 0
